@@ -12,7 +12,7 @@ from typing import Any
 from .. import core, escommon
 from ..gen import surface
 
-MODULES = ["ESV.Props.C01", "ESV.Props.C01Backend"]
+MODULES = ["ESV.Props.C01", "ESV.Props.C01Backend", "ESV.Props.C01Frontend"]
 THEOREMS = ["ESV.Beh.check_sound", "ESV.Beh.validate_sound", "ESV.C01.routine_validated", "ESV.C01.machines_validated",
             "ESV.C01.equivalent_halting_trace", "ESV.C01.jump_always_goes", "ESV.C01.flow_ending_ops_stop",
             "ESV.C01.branch_case_call_are_tests", "ESV.C01.tables_tied",
@@ -23,7 +23,12 @@ THEOREMS = ["ESV.Beh.check_sound", "ESV.Beh.validate_sound", "ESV.C01.routine_va
             "ESV.C01Backend.ctx_jump_counterexample", "ESV.C01Backend.ctx_label_counterexample",
             "ESV.C01Backend.duplicate_label_counterexample", "ESV.C01Backend.cond_trailing_counterexample",
             "ESV.C01Backend.duplicate_offset_counterexample", "ESV.C01Backend.raw_jump_counterexample",
-            "ESV.C01Backend.jump_root_counterexample"]
+            "ESV.C01Backend.jump_root_counterexample",
+            # the front end produces well-formed labelled code, for all guarded programs (design_notes/C01_frontend.md)
+            "ESV.C01Frontend.frontend_wfl", "ESV.C01Frontend.compile_backend_equiv",
+            "ESV.C01Frontend.duplicate_user_label_counterexample",
+            # code generator / whole compiler correct on fragment F0 (straight-line routines)
+            "ESV.C01Frontend.codegen_correct_F0", "ESV.C01Frontend.compile_correct_F0"]
 
 
 def table_mismatch(ast: dict, res: dict) -> str | None:
@@ -85,15 +90,34 @@ def wfl_tie(run: core.Run, drv: Any, ok_cases: list, jobs: int) -> Counter:
         except Exception as e:  # noqa
             st["not_lowered"] += 1
     reps = drv.batch_parallel(reqs, jobs) if reqs else []
+    # tie of `toSrc` (ESV/Comp/ToSrc.lean): the core program sent to the language semantics = toSrc of the compiler model's input
+    treps = drv.batch_parallel([{"op": "comp.tosrc", "prog": q["prog"], "core": surface.lower_program(c["ast"])} for q, c in zip(reqs, keep)], jobs) if reqs else []
+    tshown = 0
+    for c, rep in zip(keep, treps):
+        if "error" in rep:
+            st["tosrc_error"] += 1
+        elif rep.get("agree") is True:
+            st["tosrc_agree"] += 1
+            if rep.get("f0"):
+                st["in_F0"] += 1
+        else:
+            st["tosrc_differs"] += 1
+            tshown += 1
+            if tshown <= 3:
+                run.broken_tie("toSrc of the compiler model's input differs from the core program lowered for the language semantics", {"text": c["text"]})
     shown = 0
     for c, rep in zip(keep, reps):
         if "error" in rep:
             st["frontend_error:" + str(rep["error"])[:40]] += 1
         elif rep.get("wfl") is True:
             st["wfl_true"] += 1
+            # FrontGuard: the decidable guard of the theorem frontend_wfl (guard => WFL, for all programs)
+            st["guard_true" if rep.get("guard") else "guard_false"] += 1
         else:
             failing = ",".join(k for k in ("distinct", "labels", "raw", "root", "ctx", "cond") if rep.get(k) is False)
             st["wfl_false:" + failing] += 1
+            if rep.get("guard"):
+                run.broken_tie("FrontGuard holds but WFL is false: contradicts the theorem frontend_wfl (driver / model drift)", {"text": c["text"], "conjuncts": rep})
             if failing == "ctx" and has_jump_in_with(c["text"]):
                 continue  # known shape, outside the theorem's hypothesis
             shown += 1
